@@ -1038,6 +1038,10 @@ func c13RequestWorlds(rng *rand.Rand, thorough bool, exec func([]c13Ev)) {
 			}
 			e := copt(u(), "s:s1")
 			e.Fault, e.K = f.f, f.k
+			// the same cut on AddVerificationMethod with a key-agreement usage (an operation where did:web is off, a refusal elsewhere)
+			ka := do("addkeyka", "s1", "", "")
+			ka.Fault, ka.K = f.f, f.k
+			world(m, c13Prefs[rng.Intn(len(c13Prefs))], []c13Ev{copt(u(), "s:s1"), ka, {Op: "tick", D: 70}, {Op: "sweep"}, do("addkeyka", "s1", "", ""), do("addkey", "s1", "", "")})
 			world(m, c13Prefs[rng.Intn(len(c13Prefs))], []c13Ev{do("addsvc", "s1", "A", ""), e, {Op: "tick", D: 70}, {Op: "sweep"}, copt(u(), "s:s1"), do("addkeyka", "s1", "", ""), do("addsvc", "s1", "B", "")})
 		}
 	}
